@@ -71,6 +71,7 @@ def run(ctx):
         ("req-addnode-lz4", ["req", "-random", n(200, 1500), "-nodes", "2", "-numconns", "1", "-clients", "4", "-workers", "4", "-round", "100",
                              "-addnode", "-compression", "lz4", "-out", ctx.path("r4.ndjson"), "-stats", ctx.path("s4.json")]),
         ("events", ["events", "-rounds", n(2, 6), "-ops", "40", "-out", ctx.path("r7.ndjson"), "-stats", ctx.path("s7.json")]),
+        ("intercept-prepare-execute", ["sysprep", "-ms", n(3000, 10000), "-stats", ctx.path("s8.json")]),
         ("gates-d8", ["gates", "-scenario", "d8", "-out", ctx.path("r5.ndjson"), "-stats", ctx.path("s5.json")]),
         ("gates-d11", ["gates", "-scenario", "d11", "-out", ctx.path("r6.ndjson"), "-stats", ctx.path("s6.json")]),
     ]
